@@ -53,7 +53,16 @@ def format_code(text, filename):
                 + result.stderr.decode("utf-8")
             )
             return text
-        return result.stdout.decode("utf-8")
+        formatted = result.stdout.decode("utf-8")
+        if text.strip() and not formatted.strip():
+            raise_problem(
+                f"""\
+[b]The format_command '{escape(format_command)}' returned no code.[/b]
+The formatted code has to be written to stdout.
+"""
+            )
+            return text
+        return formatted
 
     try:
         from black import format_str
